@@ -31,6 +31,7 @@ type Case struct {
 	Stream []byte // bytes the connection delivers (then EOF)
 	Frame  int    // length of the (mutated) first frame in Stream
 	Units  int    // messages / batches in the record sets of the well-formed frame
+	client *clientCase
 }
 
 // recordLayouts are the record sets placed in fetch responses. Each unit is encoded separately so that the
@@ -173,6 +174,9 @@ func mutations(l refschema.LenField, rest int) []mut {
 // Pairs adds, to every single-field mutation, the combination with a lying frame size.
 var Pairs = false
 
+// Clients adds the client-level cases (they need a *testing.T in curT).
+var Clients = true
+
 // Skipped counts response types the golden schema does not pin (reported in the evidence).
 var Skipped []string
 
@@ -276,6 +280,9 @@ func Cases() ([]Case, error) {
 				}
 			}
 		}
+	}
+	if Clients {
+		out = append(out, clientCases(sch)...)
 	}
 	return out, nil
 }
